@@ -13,7 +13,9 @@ SMALL = [
     wl("skip_stage"), wl("poll", 1), wl("transient", 1, True), wl("or_split_join"), wl("synthetic"),
     wl("synthetic", True), wl("suspend_gate"), wl("jump_self", 1), wl("jump_cycle", 2, 1), wl("jump_cycle", 2, 2),
     wl("jump_forward_diamond", 1), wl("mutex2"), wl("choice2"), wl("synthetic2"), wl("multitask_fail", 0),
-    wl("multitask_fail", 1), wl("jump_forward_multitask", 1), wl("synthetic_raise"),
+    wl("multitask_fail", 1), wl("jump_forward_multitask", 1), wl("synthetic_raise"), wl("declared_after_fc"),
+    wl("declared_after_ok"), wl("or_split_err"), wl("or_split_long"), wl("synthetic2_multitask"), wl("synthetic2_failpre"),
+    wl("jump_back_multitask", 1),
 ]
 BIG = [wl("fail_branch"), wl("first_of"), wl("quorum"), wl("multi_merge"), wl("fan3"), wl("diamond_multitask"),
        wl("jump_side_fanin", 1), wl("jump_cycle", 3, 1), wl("choice3")]
